@@ -535,21 +535,14 @@ def Quiet (caps : Caps) (s : St) : Prop :=
   (∀ k, step .fixed caps s (.stop k) = none) ∧
   (∀ k, step .fixed caps s (.fStep k 0) = none ∧ step .fixed caps s (.fDrop k 0) = none)
 
-/-- **when the client closes or disappears first, the service is told to stop**: in every
-reachable state in which the client is gone and onet's goroutines have nothing left to do, the
-reader, the adapter and the write loop have all ended, `stopAll` and the stop channel of every
-stream are closed, and a forwarder that is still there waits for a channel its service has not
-closed yet — for every client behaviour before leaving, every service behaviour, every interleaving. -/
-theorem c15_client_leaves (caps : Caps) (hcap : 0 < caps.inCap) (m₀ : CMsg) (sched : List Act) :
-    let s := run .fixed caps (init m₀) sched
-    s.cGone = true → Quiet caps s →
+/-- the quiescence analysis behind `c15_client_leaves` and `c15_server_tears_down`: once the client
+is gone **or the server has closed the socket**, a state in which none of onet's goroutines can
+move has everything ended and every service told to stop -/
+theorem quiet_teardown (caps : Caps) (hcap : 0 < caps.inCap) (s : St) (hI : Inv s) (hJ : Inv2 s)
+    (hgone : s.cGone = true ∨ s.wsClosed = true) (hq : Quiet caps s) :
       s.rpc = .done ∧ s.adone = true ∧ s.wdone = true ∧ s.stopAll = true ∧
       (∀ st ∈ s.streams, st.stopClosed = true) ∧
       (∀ st ∈ s.streams, st.fwd = .done ∨ (st.fwd = .recv ∧ st.chanClosed = false)) := by
-  intro s hgone hq
-  obtain ⟨hI, hJ⟩ := inv12_run caps _ (inv_init m₀) (inv2_init m₀) sched
-  change Inv s at hI
-  change Inv2 s at hJ
   have hps : s.panic.isSome = false := by simp [hI.nopanic]
   obtain ⟨qr, ql, qa, qwo, qwc, qwf, qs, qf⟩ := hq
   -- the adapter can always take a queued message
@@ -579,9 +572,12 @@ theorem c15_client_leaves (caps : Caps) (hcap : 0 < caps.inCap) (m₀ : CMsg) (s
       simp only [hrp] at qr
       split at qr
       · simp at qr
-      · split at qr
+      · rename_i hws
+        split at qr
         · simp at qr
-        · simp [hgone] at qr
+        · rcases hgone with hg | hg
+          · simp [hg] at qr
+          · exact absurd hg hws
     | hold m =>
       exfalso
       simp only [hrp] at qr
@@ -649,6 +645,21 @@ theorem c15_client_leaves (caps : Caps) (hcap : 0 < caps.inCap) (m₀ : CMsg) (s
       exfalso
       simp only [hf, Variant.fixed, hstop, Bool.and_self, if_true] at q2
       simp at q2
+
+/-- **when the client closes or disappears first, the service is told to stop**: in every
+reachable state in which the client is gone and onet's goroutines have nothing left to do, the
+reader, the adapter and the write loop have all ended, `stopAll` and the stop channel of every
+stream are closed, and a forwarder that is still there waits for a channel its service has not
+closed yet — for every client behaviour before leaving, every service behaviour, every interleaving. -/
+theorem c15_client_leaves (caps : Caps) (hcap : 0 < caps.inCap) (m₀ : CMsg) (sched : List Act) :
+    let s := run .fixed caps (init m₀) sched
+    s.cGone = true → Quiet caps s →
+      s.rpc = .done ∧ s.adone = true ∧ s.wdone = true ∧ s.stopAll = true ∧
+      (∀ st ∈ s.streams, st.stopClosed = true) ∧
+      (∀ st ∈ s.streams, st.fwd = .done ∨ (st.fwd = .recv ∧ st.chanClosed = false)) := by
+  intro s hgone hq
+  obtain ⟨hI, hJ⟩ := inv12_run caps _ (inv_init m₀) (inv2_init m₀) sched
+  exact quiet_teardown caps hcap s hI hJ (Or.inl hgone) hq
 
 /-! ### the stream of a client that just listens -/
 
@@ -1755,6 +1766,624 @@ theorem c15_full_fixed : C15_full .fixed := by
   have := c15_client_leaves caps hcap m₀ sched hg
     ⟨hq _ rfl, hq _ rfl, hq _ rfl, hq _ rfl, hq _ rfl, hq _ rfl, fun k => hq _ rfl, fun k => ⟨hq _ rfl, hq _ rfl⟩⟩
   exact ⟨this.1, this.2.1, this.2.2.1, this.2.2.2.2.1⟩
+
+/-! ### the service ends the stream; nothing of onet's is ever stuck -/
+
+/-- third invariant: the write loop's exit closes the socket; a client that is still there gets
+the normal close; the stream ends with its last forwarder -/
+structure Inv3 (s : St) : Prop where
+  wdW : s.wdone = true → s.wsClosed = true
+  cnN : s.cGone = false → s.wdone = true → Frame.closeNormal ∈ s.s2c
+  lastF : ∀ st ∈ s.streams, st.refused = false → s.fcount = 0 → s.outClosed = true
+
+theorem inv3_init (m : CMsg) : Inv3 (init m) := by
+  constructor <;> simp [init]
+
+theorem setFwd_refused (st : Stream) (f : Nat) (pc : FPc) : (setFwd st f pc).refused = st.refused := by
+  unfold setFwd; split <;> rfl
+
+theorem refused_set {l : List Stream} {k : Nat} {st st' : Stream} (hk : l[k]? = some st)
+    (hr : st.refused = st'.refused) : ∀ x ∈ l.set k st', ∃ y ∈ l, y.refused = x.refused := by
+  intro x hx
+  rcases mem_set_cases hx with h | h
+  · exact ⟨x, h, rfl⟩
+  · subst h; exact ⟨st, List.mem_of_getElem? hk, hr⟩
+
+/-- a step that leaves the write loop, the socket and the forwarder count alone -/
+theorem inv3_same {s s' : St} (hK : Inv3 s) (h1 : s'.wdone = s.wdone) (h2 : s'.wsClosed = s.wsClosed)
+    (h3 : s'.cGone = false → s.cGone = false) (h4 : ∀ f ∈ s.s2c, f ∈ s'.s2c) (h5 : s'.fcount = s.fcount)
+    (h6 : s'.outClosed = s.outClosed) (h7 : ∀ x ∈ s'.streams, ∃ y ∈ s.streams, y.refused = x.refused) :
+    Inv3 s' := by
+  refine ⟨?_, ?_, ?_⟩
+  · rw [h1, h2]; exact hK.wdW
+  · intro hc hw; rw [h1] at hw; exact h4 _ (hK.cnN (h3 hc) hw)
+  · intro x hx hr hf
+    obtain ⟨y, hy, hyr⟩ := h7 x hx
+    rw [h6]; rw [h5] at hf
+    exact hK.lastF y hy (by rw [hyr]; exact hr) hf
+
+/-- a forwarder ends -/
+theorem inv3_fwdExit {s : St} (hK : Inv3 s) {k : Nat} {st : Stream} (_hk : s.streams[k]? = some st) (f : Nat) :
+    Inv3 (fwdExit .fixed { s with streams := s.streams.set k (setFwd st f .done) }) := by
+  simp only [fwdExit, Variant.fixed, if_true]
+  refine ⟨hK.wdW, hK.cnN, ?_⟩
+  intro x hx hr hf
+  simp only at hf
+  simp [hf]
+
+/-- the write loop is left -/
+theorem inv3_writerLeave {s : St} (hK : Inv3 s) (via : Bool) (f : Frame) (q : List (Nat × Nat))
+    (hf : s.cGone = false → f = .closeNormal) :
+    Inv3 (writerLeave .fixed via f { s with outq := q }) := by
+  have : ∀ t : St, t.wdone = true → t.wsClosed = true → t.cGone = s.cGone → t.s2c = s.s2c ++ [f] →
+      t.fcount = s.fcount → t.outClosed = s.outClosed → t.streams = s.streams → Inv3 t := by
+    intro t h1 h2 h3 h4 h5 h6 h7
+    refine ⟨fun _ => h2, ?_, ?_⟩
+    · intro hc _; rw [h3] at hc; rw [h4, hf hc]; simp
+    · intro x hx hr hfc; rw [h7] at hx; rw [h5] at hfc; rw [h6]; exact hK.lastF x hx hr hfc
+  simp only [writerLeave, Variant.fixed, if_true]
+  split <;> exact this _ rfl rfl rfl rfl rfl rfl rfl
+
+theorem inv3_step (caps : Caps) (s s' : St) (a : Act) (hI : Inv s) (hG : GInv s) (hK : Inv3 s)
+    (h : step .fixed caps s a = some s') : Inv3 s' := by
+  have hps : s.panic.isSome = false := by simp [hI.nopanic]
+  have same : ∀ t : St, t.wdone = s.wdone → t.wsClosed = s.wsClosed → t.cGone = s.cGone → t.s2c = s.s2c →
+      t.fcount = s.fcount → t.outClosed = s.outClosed → t.streams = s.streams → Inv3 t := by
+    intro t h1 h2 h3 h4 h5 h6 h7
+    exact inv3_same hK h1 h2 (fun hc => by rw [← h3]; exact hc) (fun f hf => by rw [h4]; exact hf) h5 h6
+      (fun x hx => ⟨x, by rw [← h7]; exact hx, rfl⟩)
+  have sameS : ∀ (k : Nat) (st st' : Stream), s.streams[k]? = some st → st.refused = st'.refused →
+      Inv3 { s with streams := s.streams.set k st' } := by
+    intro k st st' hk hr
+    exact inv3_same hK rfl rfl (fun hc => hc) (fun f hf => hf) rfl rfl (refused_set hk hr)
+  unfold step at h
+  simp only [hps, Bool.false_eq_true, if_false] at h
+  cases a with
+  | cSend m =>
+    simp only at h
+    split at h
+    · simp at h
+    · simp only [Option.some.injEq] at h; subst h; exact same _ rfl rfl rfl rfl rfl rfl rfl
+  | cLeave =>
+    simp only at h
+    split at h
+    · simp at h
+    · simp only [Option.some.injEq] at h; subst h
+      exact inv3_same hK rfl rfl (fun hc => by simp at hc) (fun f hf => hf) rfl rfl (fun x hx => ⟨x, hx, rfl⟩)
+  | rStep =>
+    simp only at h
+    split at h
+    · split at h
+      · simp only [readerExit, Variant.fixed, if_true, Option.some.injEq] at h; subst h
+        exact same _ rfl rfl rfl rfl rfl rfl rfl
+      · split at h
+        · simp only [Option.some.injEq] at h; subst h; exact same _ rfl rfl rfl rfl rfl rfl rfl
+        · split at h
+          · simp only [readerExit, Variant.fixed, if_true, Option.some.injEq] at h; subst h
+            exact same _ rfl rfl rfl rfl rfl rfl rfl
+          · simp at h
+    · split at h
+      · simp only [Option.some.injEq] at h; subst h; exact same _ rfl rfl rfl rfl rfl rfl rfl
+      · split at h
+        · simp only [Option.some.injEq] at h; subst h; exact same _ rfl rfl rfl rfl rfl rfl rfl
+        · simp at h
+    · simp at h
+  | rLeave =>
+    simp only at h
+    split at h
+    · split at h
+      · simp only [readerExit, Variant.fixed, if_true, Option.some.injEq] at h; subst h
+        exact same _ rfl rfl rfl rfl rfl rfl rfl
+      · simp at h
+    · simp at h
+  | aStep =>
+    simp only at h
+    split at h
+    · simp at h
+    · split at h
+      · split at h
+        · simp only [Option.some.injEq] at h; subst h; exact same _ rfl rfl rfl rfl rfl rfl rfl
+        · simp at h
+      · rename_i m rest hq
+        split at h
+        · simp only [Option.some.injEq] at h; subst h; exact same _ rfl rfl rfl rfl rfl rfl rfl
+        · have hfail : ∀ c, Inv3 (adapterFail .fixed { s with inq := rest, calls := c }) := by
+            intro c
+            simp only [adapterFail, Variant.fixed, if_true]
+            refine ⟨hK.wdW, hK.cnN, ?_⟩
+            intro x hx hr hf
+            simp only at hf
+            simp [hf]
+          have hnew : ∀ c, Inv3 (newStream .fixed { s with inq := rest, calls := c }) := by
+            intro c
+            simp only [newStream, Variant.fixed, if_true]
+            split
+            · rename_i hoc
+              refine ⟨hK.wdW, hK.cnN, ?_⟩
+              intro x hx hr hf
+              exact hoc
+            · refine ⟨hK.wdW, hK.cnN, ?_⟩
+              intro x hx hr hf
+              simp at hf
+          cases m with
+          | garbage => simp only [Option.some.injEq] at h; subst h; exact hfail s.calls
+          | failing => simp only [Option.some.injEq] at h; subst h; exact hfail (s.calls + 1)
+          | fresh => simp only [Option.some.injEq] at h; subst h; exact hnew (s.calls + 1)
+          | reuse j =>
+            simp only at h
+            split at h
+            · simp only [Option.some.injEq] at h; subst h; exact hnew (s.calls + 1)
+            · simp only [Variant.fixed, if_true, Option.some.injEq] at h; subst h
+              exact same _ rfl rfl rfl rfl rfl rfl rfl
+  | emit k f x =>
+    simp only at h
+    split at h
+    · simp at h
+    · rename_i st hk
+      split at h
+      · simp at h
+      · split at h
+        · simp only [Option.some.injEq] at h; subst h
+          exact sameS k st _ hk (by rw [setFwd_refused])
+        · simp at h
+  | svcClose k =>
+    simp only at h
+    split at h
+    · simp at h
+    · rename_i st hk
+      split at h
+      · simp at h
+      · simp only [Option.some.injEq] at h; subst h; exact sameS k st _ hk rfl
+  | fStep k f =>
+    simp only at h
+    split at h
+    · simp at h
+    · rename_i st hk
+      split at h
+      · split at h
+        · simp only [Option.some.injEq] at h; subst h; exact inv3_fwdExit hK hk f
+        · simp at h
+      · split at h
+        · simp only [Option.some.injEq] at h; subst h; exact same _ rfl rfl rfl rfl rfl rfl rfl
+        · split at h
+          · simp only [Option.some.injEq] at h; subst h
+            exact inv3_same hK rfl rfl (fun hc => hc) (fun f hf => hf) rfl rfl
+              (refused_set hk (by rw [setFwd_refused]))
+          · simp at h
+      · simp at h
+  | fDrop k f =>
+    simp only at h
+    split at h
+    · simp at h
+    · rename_i st hk
+      split at h
+      · split at h
+        · simp only [Option.some.injEq] at h; subst h; exact inv3_fwdExit hK hk f
+        · simp at h
+      · simp at h
+  | stop k =>
+    simp only at h
+    split at h
+    · simp at h
+    · rename_i st hk
+      split at h
+      · simp only [Option.some.injEq] at h; subst h; exact sameS k st _ hk rfl
+      · simp at h
+  | wOut =>
+    simp only at h
+    split at h
+    · simp at h
+    · split at h
+      · simp only [Option.some.injEq] at h; subst h
+        exact inv3_same hK rfl rfl (fun hc => hc) (fun f hf => by simp [hf]) rfl rfl (fun x hx => ⟨x, hx, rfl⟩)
+      · split at h
+        · simp only [Option.some.injEq] at h; subst h
+          exact inv3_writerLeave hK false .closeNormal s.outq (fun _ => rfl)
+        · simp at h
+  | wClosing =>
+    simp only at h
+    split at h
+    · simp at h
+    · rename_i hwd
+      split at h
+      · rename_i hcl
+        simp only [Option.some.injEq] at h; subst h
+        refine inv3_writerLeave hK true .closeError s.outq (fun hc => ?_)
+        have := hG.closingW hc hcl
+        simp [this] at hwd
+      · simp at h
+  | wOutFail =>
+    simp only at h
+    split at h
+    · simp at h
+    · split at h
+      · rename_i rest hq
+        split at h
+        · rename_i hg
+          simp only [Option.some.injEq] at h; subst h
+          exact inv3_writerLeave hK false .closeError rest (fun hc => by simp [hg] at hc)
+        · simp at h
+      · simp at h
+
+
+theorem all4_run (caps : Caps) (s : St) (hI : Inv s) (hJ : Inv2 s) (hG : GInv s) (hK : Inv3 s) (sched : List Act) :
+    Inv (run .fixed caps s sched) ∧ Inv2 (run .fixed caps s sched) ∧ GInv (run .fixed caps s sched) ∧
+      Inv3 (run .fixed caps s sched) := by
+  induction sched generalizing s with
+  | nil => exact ⟨hI, hJ, hG, hK⟩
+  | cons a as ih =>
+    simp only [run]
+    split
+    · rename_i s' hs
+      exact ih s' (inv_step caps s s' a hI hs) (inv2_step caps s s' a hI hJ hs) (ginv_step caps s s' a hI hJ hG hs)
+        (inv3_step caps s s' a hI hG hK hs)
+    · exact ih s hI hJ hG hK
+
+/-- the adapter can always take a queued message -/
+theorem adapter_enabled (caps : Caps) (s : St) (hI : Inv s) (hnd : s.adone = false) (hne : s.inq ≠ []) :
+    (step .fixed caps s .aStep).isSome = true := by
+  have hps : s.panic.isSome = false := by simp [hI.nopanic]
+  cases hq : s.inq with
+  | nil => exact absurd hq hne
+  | cons m rest =>
+    unfold step
+    simp only [hps, Bool.false_eq_true, if_false, hnd, hq]
+    split
+    · rfl
+    · cases m with
+      | garbage => rfl
+      | failing => rfl
+      | fresh => rfl
+      | reuse j => simp only []; split <;> simp [Variant.fixed]
+
+/-- **nothing of onet's is ever stuck**: in every reachable state in which none of onet's goroutines
+of the connection can move, each of them has ended or waits for the one event it is there for —
+the reader for the client, the adapter for the reader, the write loop for the service's output or
+the reader's signal, a forwarder for its service — and once the write loop has been left (whoever
+caused it, whatever the client does afterwards — also nothing at all) the socket is closed, reader and
+adapter have ended and every service has been told to stop.  For every client and service
+behaviour, every interleaving, all (positive) capacities. -/
+theorem c15_nothing_stuck (caps : Caps) (hin : 0 < caps.inCap) (hout : 0 < caps.outCap) (m₀ : CMsg)
+    (sched : List Act) :
+    let s := run .fixed caps (init m₀) sched
+    Quiet caps s →
+      (s.rpc = .done ∨ (s.rpc = .read ∧ s.c2s = [] ∧ s.cGone = false ∧ s.wsClosed = false)) ∧
+      (s.adone = true ∨ (s.inq = [] ∧ s.inClosed = false)) ∧
+      (s.wdone = true ∨ (s.outq = [] ∧ s.outClosed = false ∧ s.closing = false)) ∧
+      (∀ st ∈ s.streams, st.fwd = .done ∨ (st.fwd = .recv ∧ st.chanClosed = false)) ∧
+      (∀ st ∈ s.streams, s.stopAll = true ∨ st.refused = true → st.stopClosed = true) ∧
+      (s.wdone = true → s.wsClosed = true ∧ s.rpc = .done ∧ s.adone = true ∧ s.stopAll = true) := by
+  intro s hq
+  obtain ⟨hI, hJ, _, hK⟩ := all4_run caps _ (inv_init m₀) (inv2_init m₀) (ginv_init m₀) (inv3_init m₀) sched
+  change Inv s at hI
+  change Inv2 s at hJ
+  change Inv3 s at hK
+  have hps : s.panic.isSome = false := by simp [hI.nopanic]
+  have hq' := hq
+  obtain ⟨qr, _, qa, qwo, qwc, _, qs, qf⟩ := hq
+  have tear : s.wdone = true → s.wsClosed = true ∧ s.rpc = .done ∧ s.adone = true ∧ s.stopAll = true := by
+    intro hw
+    have hws := hK.wdW hw
+    have := quiet_teardown caps hin s hI hJ (Or.inr hws) hq'
+    exact ⟨hws, this.1, this.2.1, this.2.2.2.1⟩
+  refine ⟨?_, ?_, ?_, ?_, ?_, tear⟩
+  · -- the reader
+    unfold step at qr
+    simp only [hps, Bool.false_eq_true, if_false] at qr
+    cases hrp : s.rpc with
+    | done => exact Or.inl rfl
+    | read =>
+      right
+      simp only [hrp] at qr
+      split at qr
+      · simp at qr
+      · rename_i hws
+        split at qr
+        · simp at qr
+        · rename_i hc2
+          split at qr
+          · simp at qr
+          · rename_i hg
+            exact ⟨rfl, hc2, by simpa using hg, by simpa using hws⟩
+    | hold m =>
+      exfalso
+      simp only [hrp] at qr
+      have hnc : s.inClosed = false := by
+        cases hc : s.inClosed with
+        | false => rfl
+        | true => have := hI.rdone.mp hc; rw [hrp] at this; simp at this
+      simp only [hnc, Bool.false_eq_true, if_false] at qr
+      split at qr
+      · simp at qr
+      · rename_i hfull
+        have hne : s.inq ≠ [] := by
+          intro he; rw [he] at hfull; simp at hfull; omega
+        cases had : s.adone with
+        | false => have := adapter_enabled caps s hI had hne; rw [qa] at this; simp at this
+        | true => exact hne (hJ.adone had).2.2
+  · -- the adapter
+    cases had : s.adone with
+    | true => exact Or.inl rfl
+    | false =>
+      right
+      cases hiq : s.inq with
+      | cons m rest =>
+        have := adapter_enabled caps s hI had (by simp [hiq]); rw [qa] at this; simp at this
+      | nil =>
+        refine ⟨rfl, ?_⟩
+        cases hic : s.inClosed with
+        | false => rfl
+        | true =>
+          unfold step at qa
+          simp [hps, had, hiq, hic] at qa
+  · -- the write loop
+    cases hwd : s.wdone with
+    | true => exact Or.inl rfl
+    | false =>
+      right
+      unfold step at qwo qwc
+      simp only [hps, Bool.false_eq_true, if_false, hwd] at qwo qwc
+      cases hoq : s.outq with
+      | cons p rest => simp [hoq] at qwo
+      | nil =>
+        simp only [hoq] at qwo
+        refine ⟨rfl, ?_, ?_⟩
+        · cases hoc : s.outClosed with
+          | false => rfl
+          | true => simp [hoc] at qwo
+        · cases hcl : s.closing with
+          | false => rfl
+          | true => simp [hcl] at qwc
+  · -- the forwarders
+    intro st hst
+    obtain ⟨k, hk⟩ := List.getElem?_of_mem hst
+    obtain ⟨q1, q2⟩ := qf k
+    unfold step at q1 q2
+    simp only [hps, Bool.false_eq_true, if_false, hk, getFwd, if_true] at q1 q2
+    cases hf : st.fwd with
+    | done => exact Or.inl rfl
+    | recv =>
+      right
+      refine ⟨rfl, ?_⟩
+      simp only [hf] at q1
+      cases hcc : st.chanClosed with
+      | false => rfl
+      | true => simp [hcc] at q1
+    | hold x =>
+      exfalso
+      simp only [hf] at q1 q2
+      split at q1
+      · simp at q1
+      · split at q1
+        · simp at q1
+        · rename_i hfull
+          have hne : s.outq ≠ [] := by
+            intro he; rw [he] at hfull; simp at hfull; omega
+          cases hwd : s.wdone with
+          | false =>
+            unfold step at qwo
+            simp only [hps, Bool.false_eq_true, if_false, hwd] at qwo
+            cases hoq : s.outq with
+            | nil => exact hne hoq
+            | cons p rest => simp [hoq] at qwo
+          | true =>
+            have hsa := (tear hwd).2.2.2
+            simp [Variant.fixed, hsa] at q2
+  · -- the stoppers
+    intro st hst hor
+    obtain ⟨k, hk⟩ := List.getElem?_of_mem hst
+    have := qs k
+    unfold step at this
+    simp only [hps, Bool.false_eq_true, if_false, hk] at this
+    cases hsc : st.stopClosed with
+    | true => rfl
+    | false =>
+      rcases hor with h | h <;> simp [hsc, h] at this
+
+/-- **after the service ended the stream the server tears the connection down on its own**: once
+the write loop has been left — here: the service closed its channels, the normal close was written —
+nothing waits for the client any more.  In every quiescent state in which at least one request was
+served and the service has closed every channel: the write loop is left, the socket closed, reader and
+adapter ended, every stop channel closed, every forwarder gone; and a client that is still there
+(listening or silent) has been sent the normal close, after every value the service emitted if it
+never sent a bad message. -/
+theorem c15_service_ends_stream (caps : Caps) (hin : 0 < caps.inCap) (hout : 0 < caps.outCap) (m₀ : CMsg)
+    (sched : List Act) :
+    let s := run .fixed caps (init m₀) sched
+    Quiet caps s → (∃ st ∈ s.streams, st.refused = false) → (∀ st ∈ s.streams, st.chanClosed = true) →
+      s.wdone = true ∧ s.wsClosed = true ∧ s.rpc = .done ∧ s.adone = true ∧
+      (∀ st ∈ s.streams, st.stopClosed = true ∧ st.fwd = .done) ∧
+      (s.cGone = false → Frame.closeNormal ∈ s.s2c ∧
+        (s.ended = false → ∀ (k : Nat) st, s.streams[k]? = some st → st.emitted = dataOfK k s.s2c)) := by
+  intro s hq hex hcl
+  have hns := c15_nothing_stuck caps hin hout m₀ sched hq
+  obtain ⟨hI, hJ, hG, hK⟩ := all4_run caps _ (inv_init m₀) (inv2_init m₀) (ginv_init m₀) (inv3_init m₀) sched
+  change Inv s at hI
+  change GInv s at hG
+  change Inv3 s at hK
+  obtain ⟨_, _, hw, hf, hst, htear⟩ := hns
+  have hdone : ∀ st ∈ s.streams, st.fwd = .done := by
+    intro st hst'
+    rcases hf st hst' with h | ⟨_, h⟩
+    · exact h
+    · rw [hcl st hst'] at h; cases h
+  have hwd : s.wdone = true := by
+    rcases hw with h | ⟨_, hoc, _⟩
+    · exact h
+    · exfalso
+      have hc0 : s.fcount = 0 := by
+        rw [hI.count]
+        apply List.countP_eq_zero.mpr
+        intro st hst'
+        simp [live, hdone st hst']
+      obtain ⟨st, hst', hr⟩ := hex
+      have := hK.lastF st hst' hr hc0
+      rw [hoc] at this; cases this
+  obtain ⟨hws, hr, ha, hsa⟩ := htear hwd
+  refine ⟨hwd, hws, hr, ha, fun st hst' => ⟨hst st hst' (Or.inl hsa), hdone st hst'⟩, ?_⟩
+  intro hc
+  have hcn := hK.cnN hc hwd
+  refine ⟨hcn, ?_⟩
+  intro hen k st hk
+  obtain ⟨_, hqe⟩ := hG.wdoneQ hc hwd
+  have := hG.exact hc hen k st hk
+  simpa [ExactK, hqe, hdone st (List.mem_of_getElem? hk), heldOf, outqK] using this
+
+theorem step_stream_none (v : Variant) (caps : Caps) (s : St) (k : Nat) (h : s.streams.length ≤ k) :
+    step v caps s (.stop k) = none ∧ step v caps s (.fStep k 0) = none ∧ step v caps s (.fDrop k 0) = none := by
+  have hn : s.streams[k]? = none := List.getElem?_eq_none h
+  unfold step
+  refine ⟨?_, ?_, ?_⟩ <;> (split; rfl; simp [hn])
+
+/-- non-vacuity of `c15_service_ends_stream` and `c15_nothing_stuck`: a reachable quiescent state in
+which the service has closed its only channel and the client is still connected -/
+example :
+    let s := run .fixed caps10 (init .fresh) [.aStep, .emit 0 0 1, .fStep 0 0, .wOut, .svcClose 0, .fStep 0 0, .wOut,
+      .rStep, .aStep, .stop 0, .wOut]
+    Quiet caps10 s ∧ s.cGone = false ∧ (∃ st ∈ s.streams, st.refused = false) ∧
+      (∀ st ∈ s.streams, st.chanClosed = true) := by
+  intro s
+  have hl : s.streams.length = 1 := by decide
+  refine ⟨⟨by decide, by decide, by decide, by decide, by decide, by decide, ?_, ?_⟩, by decide, by decide, by decide⟩
+  · intro k
+    cases k with
+    | zero => decide
+    | succ k => exact (step_stream_none _ _ s (k + 1) (by omega)).1
+  · intro k
+    cases k with
+    | zero => decide
+    | succ k => exact ⟨(step_stream_none _ _ s (k + 1) (by omega)).2.1, (step_stream_none _ _ s (k + 1) (by omega)).2.2⟩
+
+/-! ### several connections on one server: other clients are unaffected -/
+
+theorem run_cons_none {v : Variant} {caps : Caps} {s : St} {a : Act} (as : List Act) (h : step v caps s a = none) :
+    run v caps s (a :: as) = run v caps s as := by
+  simp [run, h]
+
+theorem run_cons_some {v : Variant} {caps : Caps} {s s' : St} {a : Act} (as : List Act) (h : step v caps s a = some s') :
+    run v caps s (a :: as) = run v caps s' as := by
+  simp [run, h]
+
+theorem proj_cons_same (i : Nat) (a : Act) (rest : List (Nat × Act)) : proj i ((i, a) :: rest) = a :: proj i rest := by
+  simp [proj]
+
+theorem proj_cons_other {i j : Nat} (a : Act) (rest : List (Nat × Act)) (h : j ≠ i) :
+    proj i ((j, a) :: rest) = proj i rest := by
+  simp [proj, h]
+
+theorem not_panicked {y : Srv} (h : ∀ s ∈ y.conns, Inv s) : y.panicked = false := by
+  simp only [Srv.panicked, List.any_eq_false]
+  intro s hs
+  simp [(h s hs).nopanic]
+
+/-- general form: from any server state whose connections satisfy the no-crash invariant -/
+theorem srvRun_proj (caps : Caps) (sched : List (Nat × Act)) (y : Srv) (hy : ∀ s ∈ y.conns, Inv s) :
+    (∀ s ∈ (srvRun .fixed caps y sched).conns, Inv s) ∧
+    ∀ i, (srvRun .fixed caps y sched).conns[i]? = (y.conns[i]?).map (fun s => run .fixed caps s (proj i sched)) := by
+  induction sched generalizing y with
+  | nil => refine ⟨hy, fun i => ?_⟩; cases h : y.conns[i]? <;> simp [srvRun, proj, run, h]
+  | cons p rest ih =>
+    obtain ⟨j, a⟩ := p
+    simp only [srvRun]
+    have hnp := not_panicked hy
+    cases hj : y.conns[j]? with
+    | none =>
+      have : srvStep .fixed caps y j a = none := by simp [srvStep, hnp, hj]
+      rw [this]
+      refine ⟨(ih y hy).1, fun i => ?_⟩
+      rw [(ih y hy).2 i]
+      by_cases hij : j = i
+      · subst hij; simp [hj]
+      · rw [proj_cons_other a rest hij]
+    | some s =>
+      cases hst : step .fixed caps s a with
+      | none =>
+        have : srvStep .fixed caps y j a = none := by simp [srvStep, hnp, hj, hst]
+        rw [this]
+        refine ⟨(ih y hy).1, fun i => ?_⟩
+        rw [(ih y hy).2 i]
+        by_cases hij : j = i
+        · subst hij; simp only [hj, Option.map_some, proj_cons_same]; rw [run_cons_none _ hst]
+        · rw [proj_cons_other a rest hij]
+      | some s' =>
+        have : srvStep .fixed caps y j a = some { conns := y.conns.set j s' } := by simp [srvStep, hnp, hj, hst]
+        rw [this]
+        have hy' : ∀ t ∈ ({ conns := y.conns.set j s' } : Srv).conns, Inv t := by
+          intro t ht
+          rcases mem_set_cases ht with h | h
+          · exact hy t h
+          · subst h; exact inv_step caps s _ a (hy s (List.mem_of_getElem? hj)) hst
+        refine ⟨(ih _ hy').1, fun i => ?_⟩
+        rw [(ih _ hy').2 i]
+        by_cases hij : j = i
+        · subst hij
+          have hlt : j < y.conns.length := by
+            rcases Nat.lt_or_ge j y.conns.length with h | h
+            · exact h
+            · rw [List.getElem?_eq_none h] at hj; cases hj
+          simp only [List.getElem?_set_self hlt, hj, Option.map_some, proj_cons_same]
+          rw [run_cons_some _ hst]
+        · simp only [List.getElem?_set_ne hij]
+          rw [proj_cons_other a rest hij]
+
+/-- **other clients are unaffected** — any number of streaming connections on one server, any
+interleaving of all their clients, services and goroutines: the process never crashes, and every
+connection is at every moment in exactly the state it would be in if it were alone on the server
+and only its own actions had happened (so everything proved for one connection — order,
+completeness, clean end, tear-down — holds for each of them whatever the others do, bad messages,
+disconnects and failing handlers included). -/
+theorem c15_other_clients_unaffected (caps : Caps) (ms : List CMsg) (sched : List (Nat × Act)) :
+    let y := srvRun .fixed caps ⟨ms.map init⟩ sched
+    y.panicked = false ∧
+    ∀ i, y.conns[i]? = (ms[i]?).map (fun m => run .fixed caps (init m) (proj i sched)) := by
+  intro y
+  have hy : ∀ s ∈ (⟨ms.map init⟩ : Srv).conns, Inv s := by
+    intro s hs
+    simp only [List.mem_map] at hs
+    obtain ⟨m, _, rfl⟩ := hs
+    exact inv_init m
+  obtain ⟨h1, h2⟩ := srvRun_proj caps sched ⟨ms.map init⟩ hy
+  refine ⟨not_panicked h1, fun i => ?_⟩
+  rw [h2 i]
+  simp only [List.getElem?_map]
+  cases ms[i]? <;> rfl
+
+/-- … and this is what the repairs bought: with the code before them a bad message on one
+connection took every other client's stream down with it (connection 1 only listens to a healthy
+stream; connection 0's undecodable second message kills the process; the value connection 1's
+service emits afterwards is never delivered) -/
+theorem c15_old_crash_takes_other_clients_down :
+    let sched : List (Nat × Act) :=
+      [(0, .aStep), (1, .aStep), (0, .cSend .garbage), (0, .rStep), (0, .rStep), (0, .aStep), (0, .emit 0 0 7),
+       (0, .fStep 0 0), (1, .emit 0 0 5), (1, .fStep 0 0), (1, .wOut), (0, .wOut)]
+    ((srvRun .old caps10 ⟨[init .fresh, init .fresh]⟩ sched).conns.map (·.s2c)) = [[], []] ∧
+    (srvRun .old caps10 ⟨[init .fresh, init .fresh]⟩ sched).panicked = true ∧
+    ((srvRun .fixed caps10 ⟨[init .fresh, init .fresh]⟩ sched).conns.map (·.s2c)) = [[.data 0 7], [.data 0 5]] := by
+  decide
+
+/-! ### a write loop that waits for the client's answer to its close frame -/
+
+/-- the actions of onet's goroutines on a connection with one channel -/
+def internal1 : List Act := [.rStep, .rLeave, .aStep, .wOut, .wClosing, .wOutFail, .stop 0, .fStep 0 0, .fDrop 0 0]
+
+/-- **waiting for the reader after the normal close blocks on a silent client**: the service ends
+the stream, the normal close is written; the client is still connected but sends nothing more (it
+does not answer the close frame).  With the write loop waiting for the reader routine
+(`stepWaiting`) no goroutine of onet can move any more and the connection stays open, the reader, the
+adapter and the write loop never end, the service's stop channel is never closed; the code as it is
+reaches, on the same schedule, the torn-down state `c15_service_ends_stream` promises. -/
+theorem c15_waiting_for_silent_client_blocks :
+    let sched : List Act := [.aStep, .emit 0 0 1, .fStep 0 0, .wOut, .svcClose 0, .fStep 0 0, .wOut,
+      .rStep, .aStep, .stop 0, .wOut]
+    let w := runWaiting caps10 (init .fresh) sched
+    let s := run .fixed caps10 (init .fresh) sched
+    (w.s2c = [.data 0 1, .closeNormal] ∧ w.cGone = false ∧ (∀ a ∈ internal1, stepWaiting caps10 w a = none) ∧
+      w.wdone = false ∧ w.wsClosed = false ∧ w.rpc = .read ∧ w.adone = false ∧
+      (w.streams.map (·.stopClosed)) = [false]) ∧
+    (s.s2c = [.data 0 1, .closeNormal] ∧ (∀ a ∈ internal1, step .fixed caps10 s a = none) ∧
+      s.wdone = true ∧ s.wsClosed = true ∧ s.rpc = .done ∧ s.adone = true ∧
+      (s.streams.map (·.stopClosed)) = [true]) := by
+  decide
 
 /-! ### the code regions the model stands for
 Regenerated from /repo's source on every run (`harness/cmd/astfacts` → `OnetVerif/Shapes.lean`): the
